@@ -62,6 +62,16 @@ def step (ts : List String) : String :=
       match profileOfArray (pN ndim) (chunk (pN nrows) fl) with
       | none => "E"
       | some (x, f) => String.intercalate " " [toString x.length, toString f.length, fFs x, fFs f]
+  -- "pmask mesh x y n x0 … x(n-1) y0 … y(n-1)": the 2×N polygon as efit.pyx receives it; answer: winding number of the
+  -- closed vertex list, point_inside_polygon (0/1), PolygonMask2D.evaluate
+  | "pmask" :: mesh :: x :: y :: n :: vals =>
+      let k := pN n
+      let fl := vals.map pF
+      if fl.length != 2 * k then "bad-arity" else
+      let vs := polygonVertices (fl.take k) (fl.drop k)
+      String.intercalate " " [toString (windingNumber (closePolygon vs) (pF x) (pF y)),
+        if pointInsidePolygon (closePolygon vs) (pF x) (pF y) then "1" else "0",
+        fF (polygonMask (pF mesh) vs (pF x) (pF y))]
   | ["psin", raw] => fF (psiN (fun _ _ => pF raw) 0 0)
   | ["norm", psi, ax, lc] => fF (normGrid (pF psi) (pF ax) (pF lc))
   | ["mask", poly, psin] => fF (insideLcfs (pF poly) (pF psin))
